@@ -17,9 +17,9 @@ def MembPre (priv : Loc → Option Val) : Prop :=
 
 theorem MembPre_stable : MStable MembPre := by
   intro priv l v hl ⟨b, h1, h2⟩
-  have hne1 : Loc.glob "urcu_memb_has_sys_membarrier" ≠ l := by rcases hl with rfl | rfl | rfl <;> simp [gpFutex, gpCtr]
+  have hne1 : Loc.glob "urcu_memb_has_sys_membarrier" ≠ l := by rcases hl with rfl | rfl | ⟨rfl, _⟩ <;> simp [gpFutex, gpCtr]
   have hne2 : Loc.glob "urcu_memb_has_sys_membarrier_private_expedited" ≠ l := by
-    rcases hl with rfl | rfl | rfl <;> simp [gpFutex, gpCtr]
+    rcases hl with rfl | rfl | ⟨rfl, _⟩ <;> simp [gpFutex, gpCtr]
   refine ⟨b, by simp [hne1, h1], ?_⟩
   intro hb; obtain ⟨b2, h3⟩ := h2 hb
   exact ⟨b2, by simp [hne2, h3]⟩
